@@ -1211,7 +1211,11 @@ class SyncInterpreter(BaseInterpreter[TContext, TEvent]):
                 if on_complete is not None:
                     self._queue_actor_done(child, on_complete, activation)
                 child.stop()
-                self._actors.pop(actor_id, None)
+                # ♻️ Only drop the registration if it is still ours: when the
+                #    id was re-used, the entry now belongs to the replacement
+                #    actor and must survive this (stopped) actor's cleanup.
+                if self._actors.get(actor_id) is child:
+                    self._actors.pop(actor_id, None)
                 logger.info("🧹 Actor thread for '%s' cleaned up.", actor_id)
 
         # 🚀 Start the thread
